@@ -162,3 +162,4 @@ pub fn summary_save_consumer_offset(
     }
     Ok(())
 }
+
